@@ -187,6 +187,20 @@ func c14Run(c c14Case) (obs c14Obs) {
 	full := c14Dump(db)
 
 	// ---- part 3: idempotence, order independence ----
+	// "indexing a block again changes nothing": neither the database nor anything an observer of the indexer / the backend can see
+	// (the head the indexer reports, eth_blockNumber, what the tag "latest" resolves to)
+	headViews := func() string {
+		head, herr := kv.GetLastRequestIndexedBlock()
+		bn, berr := be.BlockNumber()
+		latest, lerr := be.GetBlockByNumber(rpctypes.EthLatestBlockNumber, false)
+		var lh, ln interface{}
+		if latest != nil {
+			lh, ln = latest["hash"], latest["number"]
+		}
+		last, _ := kv.LastIndexedBlock()
+		return fmt.Sprintf("GetLastRequestIndexedBlock=%d(%v) eth_blockNumber=%d(%v) latest={number %v hash %v}(%v) LastIndexedBlock=%d", head, herr, bn, berr, ln, lh, lerr, last)
+	}
+	views0 := headViews()
 	for _, h := range ch.heights() {
 		for rep := 0; rep < 2; rep++ {
 			b := ch.Blocks[h]
@@ -196,6 +210,9 @@ func c14Run(c c14Case) (obs c14Obs) {
 			obs.Transitions++
 			if d := c14Dump(db); d != full {
 				fail("reindex-changes-nothing", "", "re-indexing height %d (time %d):\n%s", h, rep+1, c14DiffDumps(full, d))
+			}
+			if v := headViews(); v != views0 {
+				fail("reindex-changes-nothing", "", "re-indexing height %d (time %d) of a chain indexed up to %d changes the head views: before %s, after %s", h, rep+1, ch.Tip, views0, v)
 			}
 		}
 	}
@@ -916,7 +933,7 @@ func c14Cases(thorough bool) ([]c14Case, string) {
 	} else {
 		rule += fmt.Sprintf("(a) every block of 1..3 txs in the 100k world and of 1..2 txs in the 40M world; (b) first blocks %v × every second block of ≤1 tx, first block %v × every second block of 2 txs (100k); (c) first blocks %v × every second block of 1 tx × third blocks %v (100k). ", c14Firsts[:3], c14Firsts[0], c14Firsts, thirds)
 	}
-	rule += "Per chain: IndexBlock height by height and after each call every hash lookup (all eth txs of the chain, 3 unknown hashes) and every (block,index) lookup (heights 0..tip+1 × indices -1..n+1), First/LastIndexedBlock, index dump = chain model; all Backend views per tx hash, per (block, index ≤ n+1) by number and by hash, per block (full, hashes, by hash, count), logs by hash / height / block filter / address filter / range filter, unknown hash and block; every block re-indexed twice; every non-sorted permutation of the non-empty blocks indexed into a fresh DB. "
+	rule += "Per chain: IndexBlock height by height and after each call every hash lookup (all eth txs of the chain, 3 unknown hashes) and every (block,index) lookup (heights 0..tip+1 × indices -1..n+1), First/LastIndexedBlock, index dump = chain model; all Backend views per tx hash, per (block, index ≤ n+1) by number and by hash, per block (full, hashes, by hash, count), logs by hash / height / block filter / address filter / range filter, unknown hash and block; every block re-indexed twice (database dump and the head views GetLastRequestIndexedBlock / eth_blockNumber / block behind 'latest' must not move); every non-sorted permutation of the non-empty blocks indexed into a fresh DB. "
 	if thorough {
 		rule += "Crash part on every chain with blocks of ≤3 txs: "
 	} else {
